@@ -34,7 +34,7 @@ def columnLineage (g : LGraph) (exclEnd : Bool := true) (exclSub : Bool := false
   let paths := if exclSub then
       (raw.map (fun p => p.filter (fun n => match colParent n with | some d => !d.isSubq | none => true))).filter
         (fun p => p.length > 1)
-    else raw
+    else raw.filter (fun p => p.length > 1)      -- a path has at least one hop (holders.py: `elif len(path) > 1`)
   paths.eraseDups
 
 end SqlLineage.Paths
